@@ -11,7 +11,8 @@ full range. For every assignment of the digits the scanner must
   * otherwise hand to parse_float (significand w, exponent q, negative, trunc, raw text) with
       trunc == false:  w * 10^q == the literal's exact value, 1 <= w < 10^19   (the precondition the
                        float-construction check assumes),
-      trunc == true :  w * 10^q <= exact value < (w + 1) * 10^q, and raw text = the literal,
+      trunc == true :  w * 10^q <= exact value < (w + 1) * 10^q, 10^16 <= w < 10^19, and raw text = the literal
+                       (the precondition of float_check.py --trunc),
   * never answer InvalidNumber for a well-formed literal.
 Together with float_check.py (what parse_float returns for every such (w, q)) this decides the
 literal -> double map for every literal of the listed shapes.
@@ -181,7 +182,7 @@ def check_shapes(job):
                            ["(not (and (= %s %s) (>= %s 1) (< %s %d)))" % (sx(lhs), sx(rhs), sx(w), sx(w), 10 ** 19)])
                 else:
                     report("truncated significand does not bracket the literal", c,
-                           ["(not (and (<= %s %s) (< %s %s) (>= %s 1)))" % (sx(lhs), sx(rhs), sx(rhs), sx(lhs1), sx(w))])
+                           ["(not (and (<= %s %s) (< %s %s) (>= %s %d) (< %s %d)))" % (sx(lhs), sx(rhs), sx(rhs), sx(lhs1), sx(w), 10 ** 16, sx(w), 10 ** 19)])
                 continue
             if isinstance(rv, Adt) and rv.variant == "Ok" and isinstance(rv.fields[0], Adt):
                 pnum = rv.fields[0]
